@@ -630,3 +630,32 @@ func init() {
 	mut("C02", "spendSiacoinElement gets a value receiver: the spend is recorded on a copy", true, "receiver-mutation|(consensus.MidState).spendSiacoinElement",
 		Edit{"consensus/application.go", "func (ms *MidState) spendSiacoinElement(", "func (ms MidState) spendSiacoinElement("})
 }
+
+func init() {
+	// ---- third benign round: each accepted idiom with a broken twin ----
+	cmpOld := "\tif c == v {\n\t\treturn 0\n\t} else if c.Hi < v.Hi || (c.Hi == v.Hi && c.Lo < v.Lo) {\n\t\treturn -1\n\t} else {\n\t\treturn 1\n\t}\n}\n\n// Add returns c+v. If the result would overflow, Add panics."
+	imp := Edit{"types/currency.go", "import (\n\t\"encoding/binary\"", "import (\n\t\"cmp\"\n\t\"encoding/binary\""}
+	mut("C15", "(benign) Cmp through cmp.Compare, high word first", false, "", imp,
+		Edit{"types/currency.go", cmpOld, "\tif c.Hi != v.Hi {\n\t\treturn cmp.Compare(c.Hi, v.Hi)\n\t}\n\treturn cmp.Compare(c.Lo, v.Lo)\n}\n\n// Add returns c+v. If the result would overflow, Add panics."})
+	mut("C15", "Cmp through cmp.Compare with the low word's operands swapped", true, "order|Cmp:Hi=Hi,Lo<Lo", imp,
+		Edit{"types/currency.go", cmpOld, "\tif c.Hi != v.Hi {\n\t\treturn cmp.Compare(c.Hi, v.Hi)\n\t}\n\treturn cmp.Compare(v.Lo, c.Lo)\n}\n\n// Add returns c+v. If the result would overflow, Add panics."})
+	mut("C15", "Cmp through cmp.Compare, low word decides first", true, "order|Cmp:Hi<Hi,Lo>Lo", imp,
+		Edit{"types/currency.go", cmpOld, "\tif c.Lo != v.Lo {\n\t\treturn cmp.Compare(c.Lo, v.Lo)\n\t}\n\treturn cmp.Compare(c.Hi, v.Hi)\n}\n\n// Add returns c+v. If the result would overflow, Add panics."})
+	ntOld := "\tif s.childHeight() < uint64(len(s.PrevTimestamps)) {\n\t\treturn int(s.childHeight())\n\t}\n\treturn len(s.PrevTimestamps)\n}"
+	mut("C10", "(benign) numTimestamps through the min builtin", false, "",
+		Edit{"consensus/state.go", ntOld, "\treturn int(min(s.childHeight(), uint64(len(s.PrevTimestamps))))\n}"})
+	mut("C10", "numTimestamps through min with a bound one above the array", true, "sink-discharged|(consensus.State).EncodeTo:slice-high",
+		Edit{"consensus/state.go", ntOld, "\treturn int(min(s.childHeight(), uint64(len(s.PrevTimestamps))+1))\n}"})
+	cntOld := "if counts[0] != len(txns) || counts[1] != len(v2txns) || counts[2] != len(hashes) {"
+	mut("C10", "(benign) outline kind counts compared as one array", false, "",
+		Edit{"gateway/encoding.go", cntOld, "if counts != [3]int{len(txns), len(v2txns), len(hashes)} {"})
+	mut("C10", "outline kind counts compared as one array, hash count left out", true, "bound-guard|outline-count-crosscheck:2",
+		Edit{"gateway/encoding.go", cntOld, "if counts != [3]int{len(txns), len(v2txns), counts[2]} {"})
+	arbOld := "\tif ms.base.childHeight() < ms.base.Network.HardforkFoundation.Height {\n\t\treturn nil\n\t}\n\tfor _, arb := range txn.ArbitraryData {"
+	mut("C03", "(benign) validateArbitraryData returns early without arbitrary data", false, "",
+		Edit{"consensus/validation.go", arbOld, "\tif ms.base.childHeight() < ms.base.Network.HardforkFoundation.Height {\n\t\treturn nil\n\t} else if len(txn.ArbitraryData) == 0 {\n\t\treturn nil\n\t}\n\tfor _, arb := range txn.ArbitraryData {"})
+	mut("C03", "validateArbitraryData returns early without signatures (unsigned Foundation update accepted)", true, "auth-guard|v1-foundation:signed",
+		Edit{"consensus/validation.go", arbOld, "\tif ms.base.childHeight() < ms.base.Network.HardforkFoundation.Height {\n\t\treturn nil\n\t} else if len(txn.Signatures) == 0 {\n\t\treturn nil\n\t}\n\tfor _, arb := range txn.ArbitraryData {"})
+	mut("C04", "(benign) ApplyBlock preallocates the updated/added leaf slices", false, "",
+		Edit{"consensus/application.go", "\tvar updated, added []elementLeaf\n\tforEachAppliedElement(ms.sces", "\tupdated := make([]elementLeaf, 0, len(ms.sces))\n\tadded := make([]elementLeaf, 0, len(ms.sces))\n\tforEachAppliedElement(ms.sces"})
+}
